@@ -432,6 +432,85 @@ Proof.
   unfold other_action in E. rewrite H in E. exact E.
 Qed.
 
+(* ---------------------------------------------- declarations of the result *)
+Lemma fold_min_le r : forall u, (fold_left Z.min r u <= u)%Z /\
+  Forall (fun w => fold_left Z.min r u <= w)%Z r /\
+  In (fold_left Z.min r u) (u :: r).
+Proof.
+  induction r as [|w r IH]; intros u; cbn [fold_left].
+  - repeat split; [lia|constructor|now left].
+  - destruct (IH (Z.min u w)) as (H1 & H2 & H3). repeat split.
+    + lia.
+    + constructor; [lia|exact H2].
+    + destruct H3 as [H3|H3]; [|now right; right].
+      rewrite <- H3. destruct (Z.min_spec u w) as [[_ ->]|[_ ->]];
+        [now left|now right; left].
+Qed.
+
+Lemma fold_max_ge r : forall u, (u <= fold_left Z.max r u)%Z /\
+  Forall (fun w => w <= fold_left Z.max r u)%Z r /\
+  In (fold_left Z.max r u) (u :: r).
+Proof.
+  induction r as [|w r IH]; intros u; cbn [fold_left].
+  - repeat split; [lia|constructor|now left].
+  - destruct (IH (Z.max u w)) as (H1 & H2 & H3). repeat split.
+    + lia.
+    + constructor; [lia|exact H2].
+    + destruct H3 as [H3|H3]; [|now right; right].
+      rewrite <- H3. destruct (Z.max_spec u w) as [[_ ->]|[_ ->]];
+        [now right; left|now left].
+Qed.
+
+(* the declared range of the node variable is the tight range of the ids *)
+Theorem nodevar_dom_spec (g : tsys) :
+  ts_nodes g <> [] ->
+  let '(lo, hi) := nodevar_dom g in
+  (forall u, In u (node_ids g) -> (lo <= u <= hi)%Z)
+  /\ In lo (node_ids g) /\ In hi (node_ids g).
+Proof.
+  unfold nodevar_dom, node_ids. intros Hne.
+  destruct (map fst (ts_nodes g)) as [|u r] eqn:E.
+  { destruct (ts_nodes g); [contradiction|discriminate]. }
+  destruct (fold_min_le r u) as (A1 & A2 & A3).
+  destruct (fold_max_ge r u) as (B1 & B2 & B3).
+  repeat split; auto.
+  - destruct H as [<-|H]; [exact A1|].
+    rewrite Forall_forall in A2. now apply A2.
+  - destruct H as [<-|H]; [exact B1|].
+    rewrite Forall_forall in B2. now apply B2.
+Qed.
+
+Lemma mem_In k l : mem k l = true <-> In k l.
+Proof.
+  unfold mem. rewrite existsb_exists. split.
+  - intros (x & Hx & He). apply Nat.eqb_eq in He. now subst.
+  - intros H. exists k. split; [exact H|apply Nat.eqb_refl].
+Qed.
+
+(* the node variable belongs to the owner; the other variables are split by
+   env_vars *)
+Theorem varlists_spec nd (g : tsys) :
+  let '(env, sys) := varlists nd g in
+  (if ts_owner_sys g then In nd sys else In nd env)
+  /\ (forall k, k <> nd ->
+        (In k env <-> In k (ts_env_vars g)) /\
+        (In k sys <-> In k (ts_vars g) /\ ~ In k (ts_env_vars g))).
+Proof.
+  unfold varlists.
+  assert (F : forall k, In k (filter (fun k => negb (mem k (ts_env_vars g)))
+                                     (ts_vars g))
+              <-> In k (ts_vars g) /\ ~ In k (ts_env_vars g)).
+  { intros k. rewrite filter_In, negb_true_iff, <- not_true_iff_false, mem_In.
+    reflexivity. }
+  destruct (ts_owner_sys g); split.
+  - apply in_or_app. right. now left.
+  - intros k Hk. split; [reflexivity|]. rewrite in_app_iff, F. cbn.
+    intuition congruence.
+  - apply in_or_app. right. now left.
+  - intros k Hk. split; [|apply F]. rewrite in_app_iff. cbn.
+    intuition congruence.
+Qed.
+
 (* ------------------------------------------------------------------ runs *)
 (* finite runs of the symbolic automaton that start at a node of the graph
    are exactly the labelled paths of the graph (with stuttering steps when
